@@ -267,6 +267,8 @@ C15Nav ==
 (***************************************************************************)
 (* C19: printed forms.                                                     *)
 (***************************************************************************)
+\* a (year, month, day) the rendering tables can index at all (anything else is rejected by name, not by a TLC error)
+LFieldsOK(t) == t[1] >= 0 /\ AbsM(t[2]) \in 1..12 /\ t[3] \in 1..30
 C19Year ==
   /\ IsEv("C19Year")
   /\ LET e == Trace[l]
@@ -280,6 +282,8 @@ C19Year ==
                + Chk("C19.civil.parse", k, /\ WellFormedYmd(x.ymd) /\ WellFormedYmdHms(x.hms)
                                            /\ ParseYmd(x.ymd) = k /\ ParseYmdHms(x.hms) = x.c)
                + (IF x.p # 0 THEN Chk("C19.lunar.panic", k, FALSE)
+                  ELSE IF ~(LFieldsOK(x.l) /\ LFieldsOK(x.t) /\ LFieldsOK(x.f))
+                         THEN Chk("C19.lunar.fields-out-of-range", << k, x.l, x.t, x.f >>, FALSE)
                   ELSE Chk("C19.lunar.render", << k, x.l, x.ls >>, x.ls = RenderLunar(x.l[1], x.l[2], x.l[3]))
                        + Chk("C19.lunar.parse", << k, x.l, x.ls >>, WellFormedLunar(x.ls) /\ ParseLunar(x.ls) = x.l)
                        + Chk("C19.tao.render", << k, x.t, x.ts >>, x.ts = RenderLunar(x.t[1], x.t[2], x.t[3])
